@@ -13,6 +13,7 @@
   Strict mode (no `distinctfd`), no CLP(Z) constraint on an FD variable.
 -/
 import PvModel.Proofs.EnforceKeys
+import PvModel.Props.C16Keys
 import PvModel.Proofs.ReifyGoal
 import PvModel.Proofs.LabelSep
 import PvModel.Proofs.LabelGround
@@ -295,6 +296,274 @@ example : (match postAllF Order.default (State.empty 3)
       (runF (solveAt dfs0 60 3) 1500 (solveAt dfs0 60 3 (enforceFd Order.default (Term.ofList [x])) c)).length == 0
     | _ => false) = true := by decide +kernel
 end Examples
+
+/-- THE LIST OF ANSWER VALUES.  In the setting of `C17_assignments_bijection`, when no answer holds a tree disequality (FD
+    programs without `!=`): the values `apply b.σ x` the answers report for the query term form a list WITHOUT DUPLICATES whose
+    elements are exactly the values the query term takes under the valuations the start state describes. -/
+theorem C17_answer_values {ord : Order} (ho : OrderOK ord) (dfs : Call → State → State × G) (pf M : Nat)
+    (x : Term) (s : State) (N : Nat) (xs : List State) (hi : LInv s) (hp : s.panic = none) (hops : OpsOK s)
+    (hdom : ∀ y ∈ (apply s.σ x).vars, (s.dget y).isSome)
+    (h1 : evalRef dfs N (forceAns ord forceFuel x) s = some xs) (hall1 : ∀ c ∈ xs, c.panic = none)
+    (NOf : State → Nat) (dsOf ysOf : State → List State)
+    (hblk : ∀ c ∈ xs, c.allBound = true ∧ c.dstore.length < forceFuel ∧
+      evalRef dfs (NOf c) (forceAns ord forceFuel (Term.ofList ((ord.ds c.dstore).map fun p => Term.var p.1))) c = some (dsOf c) ∧
+      (∀ t ∈ dsOf c, t.panic = none) ∧
+      drainF (solveAt dfs pf (M + 1)) pf
+        (start dfs (solveAt dfs pf (M + 1)) pf
+          (Goal.conjOfList [forceAns ord forceFuel (Term.ofList ((ord.ds c.dstore).map fun p => Term.var p.1))]) c) = some (ysOf c))
+    (hnd : ∀ c ∈ xs, ∀ b, (ysOf c).head? = some b → b.store = []) :
+    ∃ xs', xs.Perm xs' ∧
+      AnsS (solveAt dfs pf (M + 2)) (solveAt dfs pf (M + 2) (enforceFd ord x) s) (xs'.flatMap fun c => ((ysOf c).head?).toList) ∧
+      ((xs'.flatMap fun c => ((ysOf c).head?).toList).map fun b => apply b.σ x).Nodup ∧
+      ∀ v, v ∈ ((xs'.flatMap fun c => ((ysOf c).head?).toList).map fun b => apply b.σ x) ↔ ∃ γ, Sem NoI γ s ∧ apply γ x = v := by
+  obtain ⟨xs', px, ha, hval, hcov, hpw⟩ :=
+    C17_assignments_bijection ho dfs pf M x s N xs hi hp hops hdom h1 hall1 NOf dsOf ysOf hblk
+  obtain ⟨_, hk⟩ := C17_enforce_exactly_once ho dfs pf M x s N xs hi hp hops h1 hall1 NOf dsOf ysOf hblk
+  have hb := blocks_inv ho dfs forceFuel N x s xs hi hp hops h1 hall1
+  have part := (forceAns_labelOK dfs ho forceFuel x).1 N s xs hi.w hi.i hp h1 hall1
+  -- every answer describes its own substitution, and only valuations of the start state
+  have hself : ∀ b ∈ xs'.flatMap (fun c => ((ysOf c).head?).toList), Sem NoI b.σ b ∧ ∀ γ, Sem NoI γ b → Sem NoI γ s := by
+    intro b hbm
+    obtain ⟨c, hc, hbc⟩ := List.mem_flatMap.1 hbm
+    have hcx := px.mem_iff.2 hc
+    have e : (ysOf c).head? = some b := by
+      cases hh : (ysOf c).head? with
+      | none => rw [hh] at hbc; cases hbc
+      | some b' => rw [hh] at hbc; simp only [Option.toList_some, List.mem_singleton] at hbc; rw [hbc]
+    obtain ⟨a1, a2, a3, a4, a5⟩ := hblk c hcx
+    obtain ⟨li, oc, _⟩ := hb c hcx
+    have hperm := ho.2.2 c.dstore
+    have hmap : (ord.ds c.dstore).map (fun p => Term.var p.1) = ((ord.ds c.dstore).map (·.1)).map Term.var := by
+      rw [List.map_map]; rfl
+    rw [hmap] at a3 a5
+    have hks : ∀ y, (c.dget y).isSome → y ∈ (ord.ds c.dstore).map (·.1) := fun y hy => by
+      obtain ⟨q, hq, e'⟩ := dget_isSome_iff.1 hy
+      exact List.mem_map.2 ⟨q, hperm.mem_iff.2 hq, e'⟩
+    have hko : ∀ k ∈ (ord.ds c.dstore).map (·.1), KeyOK c k := fun k hk' => by
+      obtain ⟨q, hq, e'⟩ := List.mem_map.1 hk'
+      have : (c.dget k).isSome := dget_isSome_iff.2 ⟨q, hperm.mem_iff.1 hq, e'⟩
+      exact .inl ((li.dk k this).elim id (fun f => f.elim))
+    have hlen : ((ord.ds c.dstore).map (·.1)).length < forceFuel := by
+      rw [List.length_map, hperm.length_eq]; exact a2
+    have hle := hidden_labelling_engine ho dfs pf M _ forceFuel (NOf c) c (dsOf c) (ysOf c) hlen li (hall1 c hcx) oc hks hko a3 a4 a5
+    have hbds : b ∈ dsOf c := hle.1.mem_iff.2 (List.mem_of_mem_head? e)
+    obtain ⟨k1, _⟩ := keys_labelling_decides ho dfs _ forceFuel (NOf c) c (dsOf c) hlen li (hall1 c hcx) oc hks hko a3 a4
+    obtain ⟨d1, _, wb, sub⟩ := k1 b hbds
+    have hst := hnd c hcx b e
+    refine ⟨⟨Ext.refl _ wb.solved, by rw [hst]; simp, by unfold DomSem; rw [d1]; simp⟩, fun γ hγ => ?_⟩
+    exact (part.1 c hcx).2.2 γ (sub γ hγ)
+  refine ⟨xs', px, ha, ?_, fun v => ⟨fun hv => ?_, fun ⟨γ, hγ, e⟩ => ?_⟩⟩
+  · rw [List.nodup_iff_pairwise_ne, List.pairwise_map]
+    exact hpw.imp_of_mem fun {a b} ha' hb' hab => hab a.σ b.σ (hself a ha').1 (hself b hb').1
+  · obtain ⟨b, hbm, rfl⟩ := List.mem_map.1 hv
+    exact ⟨b.σ, (hself b hbm).2 _ (hself b hbm).1, rfl⟩
+  · obtain ⟨b, hbm, hsame⟩ := hcov γ hγ
+    exact List.mem_map.2 ⟨b, hbm, by rw [hsame b.σ (hself b hbm).1, e]⟩
+
+/-- C04 FOR FINITE-DOMAIN ANSWERS, per path: two states that describe the same valuations (the same conjuncts posted in two
+    orders: `C04_fd_conj_comm`) yield — through labelling, the `onceo` over the hidden variables, on the engine — answer lists
+    whose values for the query term are PERMUTATIONS of each other: the multiset of answers does not depend on the order of
+    the conjuncts, whatever the strength of propagation along either order. -/
+theorem C04_fd_answer_values_perm (x : Term) (s1 s2 : State) (V1 V2 : List Term)
+    (hsem : ∀ γ, Sem NoI γ s1 ↔ Sem NoI γ s2)
+    (n1 : V1.Nodup) (m1 : ∀ v, v ∈ V1 ↔ ∃ γ, Sem NoI γ s1 ∧ apply γ x = v)
+    (n2 : V2.Nodup) (m2 : ∀ v, v ∈ V2 ↔ ∃ γ, Sem NoI γ s2 ∧ apply γ x = v) : V1.Perm V2 := by
+  refine (List.perm_ext_iff_of_nodup n1 n2).2 fun v => ?_
+  rw [m1 v, m2 v]
+  exact ⟨fun ⟨γ, a, b⟩ => ⟨γ, (hsem γ).1 a, b⟩, fun ⟨γ, a, b⟩ => ⟨γ, (hsem γ).2 a, b⟩⟩
+
+/-! ### Non-vacuity of the end-to-end theorems: every hypothesis of `C17_assignments_bijection` holds on a concrete program -/
+section NonVacuity
+private def nvDfs : Call → State → State × G := fun _ a => (a, .fail)
+private def nvX : Term := .var 0
+private def nvY : Term := .var 1
+private def nvAtoms : List FAtom := [.dom nvX (.interval 1 2), .dom nvY (.interval 1 2), .cst (.diseqfd nvX nvY)]
+private def nvKeys (c : State) : Term := Term.ofList ((Order.default.ds c.dstore).map fun p => Term.var p.1)
+private def nvQ : Term := Term.ofList [nvX]
+private def nvDsOf (c : State) : List State := (evalRef nvDfs 40 (forceAns Order.default forceFuel (nvKeys c)) c).getD []
+private def nvYsOf (c : State) : List State :=
+  (drainF (solveAt nvDfs 30 2) 30 (start nvDfs (solveAt nvDfs 30 2) 30
+    (Goal.conjOfList [forceAns Order.default forceFuel (nvKeys c)]) c)).getD []
+
+private def nvBlockOK (c : State) : Bool :=
+  c.panic.isNone && c.allBound && decide (c.dstore.length < forceFuel) &&
+  (match evalRef nvDfs 40 (forceAns Order.default forceFuel (nvKeys c)) c with
+   | some ds => ds.all (·.panic.isNone)
+   | none => false) &&
+  (drainF (solveAt nvDfs 30 2) 30 (start nvDfs (solveAt nvDfs 30 2) 30
+    (Goal.conjOfList [forceAns Order.default forceFuel (nvKeys c)]) c)).isSome &&
+  (match (nvYsOf c).head? with | some b => b.store.isEmpty | none => true)
+
+private def nvStateOK (s : State) : Bool :=
+  s.panic.isNone && s.allBound &&
+  (s.store.all fun p => p.2.isDiseq || (operandsOf p.2).all fun u => (walk s.σ u).isVar || (walk s.σ u).isNum) &&
+  ((apply s.σ nvQ).vars.all fun v => (s.dget v).isSome)
+
+/-- every Boolean side condition of `C17_assignments_bijection`, computed on the concrete program -/
+private def nvSideOK : Bool :=
+  match postAllF Order.default (State.empty 2) nvAtoms with
+  | .ok s =>
+    nvStateOK s &&
+    (match evalRef nvDfs 40 (forceAns Order.default forceFuel nvQ) s with
+     | some xs => xs.all nvBlockOK
+     | none => false)
+  | _ => false
+
+private theorem nvSideOK_true : nvSideOK = true := by decide +kernel
+
+private theorem nvOrderOK : OrderOK Order.default := ⟨fun _ => .refl _, fun _ => .refl _, fun _ => .refl _⟩
+
+/-- NON-VACUITY of `C17_assignments_bijection`: ALL its hypotheses hold for `x, y in 1..2, x != y`, query term `[x]` -/
+example : ∃ (s : State) (xs xs' : List State), postAllF Order.default (State.empty 2) nvAtoms = .ok s ∧ xs.Perm xs' ∧
+    AnsS (solveAt nvDfs 30 3) (solveAt nvDfs 30 3 (enforceFd Order.default nvQ) s) (xs'.flatMap fun c => ((nvYsOf c).head?).toList) ∧
+    (xs'.flatMap fun c => ((nvYsOf c).head?).toList).Pairwise
+      (fun a b => ∀ γa γb, Sem NoI γa a → Sem NoI γb b → apply γa nvQ ≠ apply γb nvQ) := by
+  have hside := nvSideOK_true
+  unfold nvSideOK at hside
+  cases h1 : postAllF Order.default (State.empty 2) nvAtoms with
+  | ok s =>
+    rw [h1] at hside
+    simp only [Bool.and_eq_true] at hside
+    obtain ⟨hst, hrest⟩ := hside
+    cases h2 : evalRef nvDfs 40 (forceAns Order.default forceFuel nvQ) s with
+    | none => rw [h2] at hrest; cases hrest
+    | some xs =>
+      rw [h2] at hrest
+      have hxs := List.all_eq_true.1 hrest
+      unfold nvStateOK at hst
+      simp only [Bool.and_eq_true] at hst
+      obtain ⟨⟨⟨hp, hab⟩, hkind⟩, hdom⟩ := hst
+      have hok : ∀ a ∈ nvAtoms, a.OK := by
+        intro a ha
+        simp only [nvAtoms, List.mem_cons, List.mem_nil_iff, or_false] at ha
+        rcases ha with rfl | rfl | rfl
+        · show (1 : Int) ≤ 2; decide
+        · show (1 : Int) ≤ 2; decide
+        · trivial
+      have hnz : ∀ a ∈ nvAtoms, a.NoZ := by
+        intro a ha
+        simp only [nvAtoms, List.mem_cons, List.mem_nil_iff, or_false] at ha
+        rcases ha with rfl | rfl | rfl <;> first | trivial | rfl
+      have hi := linv_of_atoms nvOrderOK 2 nvAtoms hok hnz s h1
+      have hpn : s.panic = none := by cases hq : s.panic with | none => rfl | some _ => rw [hq] at hp; cases hp
+      have hops : OpsOK s := C17_opsOK_of_allBound s hab hi.z (fun p hp' hd u hu => by
+        have := (List.all_eq_true.1 hkind) p hp'
+        rw [hd, Bool.false_or] at this
+        have := (List.all_eq_true.1 this) u hu
+        simpa [Bool.or_eq_true] using this)
+      have hdom' : ∀ v ∈ (apply s.σ nvQ).vars, (s.dget v).isSome := fun v hv => (List.all_eq_true.1 hdom) v hv
+      have hblk : ∀ c ∈ xs, c.panic = none ∧ c.allBound = true ∧ c.dstore.length < forceFuel ∧
+          evalRef nvDfs 40 (forceAns Order.default forceFuel (nvKeys c)) c = some (nvDsOf c) ∧ (∀ t ∈ nvDsOf c, t.panic = none) ∧
+          drainF (solveAt nvDfs 30 2) 30 (start nvDfs (solveAt nvDfs 30 2) 30
+            (Goal.conjOfList [forceAns Order.default forceFuel (nvKeys c)]) c) = some (nvYsOf c) := by
+        intro c hc
+        have hb := hxs c hc
+        unfold nvBlockOK at hb
+        simp only [Bool.and_eq_true, decide_eq_true_eq] at hb
+        obtain ⟨⟨⟨⟨⟨b1, b2⟩, b3⟩, b4⟩, b5⟩, _⟩ := hb
+        have b1' : c.panic = none := by
+          cases hq : c.panic with
+          | none => rfl
+          | some _ => rw [hq] at b1; cases b1
+        refine ⟨b1', b2, b3, ?_, ?_, ?_⟩
+        · unfold nvDsOf; cases he : evalRef nvDfs 40 (forceAns Order.default forceFuel (nvKeys c)) c with
+          | none => rw [he] at b4; cases b4
+          | some ds => rfl
+        · unfold nvDsOf; cases he : evalRef nvDfs 40 (forceAns Order.default forceFuel (nvKeys c)) c with
+          | none => rw [he] at b4; cases b4
+          | some ds =>
+            rw [he] at b4
+            intro t ht
+            have := (List.all_eq_true.1 b4) t ht
+            cases hq : t.panic with | none => rfl | some _ => rw [hq] at this; cases this
+        · unfold nvYsOf
+          cases hd : drainF (solveAt nvDfs 30 2) 30 (start nvDfs (solveAt nvDfs 30 2) 30
+              (Goal.conjOfList [forceAns Order.default forceFuel (nvKeys c)]) c) with
+          | none => rw [hd] at b5; cases b5
+          | some ys => rfl
+      obtain ⟨xs', px, ha, _, _, hpw⟩ := C17_assignments_bijection nvOrderOK nvDfs 30 1 nvQ s 40 xs hi hpn hops hdom' h2
+        (fun c hc => (hblk c hc).1) (fun _ => 40) nvDsOf nvYsOf (fun c hc => (hblk c hc).2)
+      -- … and `C17_answer_values`: no answer holds a tree disequality
+      have hnd : ∀ c ∈ xs, ∀ b, (nvYsOf c).head? = some b → b.store = [] := by
+        intro c hc b hb
+        have hbk := hxs c hc
+        unfold nvBlockOK at hbk
+        simp only [Bool.and_eq_true] at hbk
+        have h6 := hbk.2
+        rw [hb] at h6
+        simpa using h6
+      obtain ⟨_, _, _, hnodup, _⟩ := C17_answer_values nvOrderOK nvDfs 30 1 nvQ s 40 xs hi hpn hops hdom' h2
+        (fun c hc => (hblk c hc).1) (fun _ => 40) nvDsOf nvYsOf (fun c hc => (hblk c hc).2) hnd
+      exact ⟨s, xs, xs', rfl, px, ha, hpw⟩
+  | fail => rw [h1] at hside; cases hside
+  | fuel => rw [h1] at hside; cases hside
+  | panic _ => rw [h1] at hside; cases hside
+private def nv2Atoms : List FAtom :=
+  [.dom (.var 0) (.interval 1 3), .dom (.var 1) (.interval 1 3), .dom (.var 2) (.interval 4 4), .cst (.plusfd (.var 0) (.var 1) (.var 2))]
+
+private def nv2Side : Bool :=
+  match postAllF Order.default (State.empty 3) nv2Atoms with
+  | .ok st =>
+    st.allBound &&
+    (st.store.all fun p => p.2.isDiseq || (operandsOf p.2).all fun u => (walk st.σ u).isVar || (walk st.σ u).isNum) &&
+    (match postAllF Order.default st (labelAtoms [(3, 0)]) with
+     | .ok st' => (st.dstore.all fun p => st'.σ p.1 != .var p.1) && st'.store.isEmpty
+     | _ => false)
+  | _ => false
+
+private theorem nv2Side_true : nv2Side = true := by decide +kernel
+
+/-- NON-VACUITY of `C16_labelled_answer_sound`: all hypotheses hold for `x, y in 1..3, z in 4..4, x + y = z` labelled with `3 == x`;
+    the conclusion: every atom and the labelling equality hold under the answer's own substitution -/
+example : ∃ st st', postAllF Order.default (State.empty 3) nv2Atoms = .ok st ∧
+    postAllF Order.default st (labelAtoms [(3, 0)]) = .ok st' ∧ st'.dstore = [] ∧
+    ∀ a ∈ nv2Atoms ++ labelAtoms [(3, 0)], a.Sat st'.σ := by
+  have hside := nv2Side_true
+  unfold nv2Side at hside
+  cases h1 : postAllF Order.default (State.empty 3) nv2Atoms with
+  | ok st =>
+    rw [h1] at hside
+    simp only [Bool.and_eq_true] at hside
+    obtain ⟨⟨hab, hkind⟩, hrest⟩ := hside
+    cases h2 : postAllF Order.default st (labelAtoms [(3, 0)]) with
+    | ok st' =>
+      rw [h2] at hrest
+      simp only [Bool.and_eq_true] at hrest
+      obtain ⟨hbound, hempty⟩ := hrest
+      have ho : OrderOK Order.default := ⟨fun _ => .refl _, fun _ => .refl _, fun _ => .refl _⟩
+      have hok : ∀ a ∈ nv2Atoms, a.OK := by
+        intro a ha
+        simp only [nv2Atoms, List.mem_cons, List.mem_nil_iff, or_false] at ha
+        rcases ha with rfl | rfl | rfl | rfl
+        · show (1 : Int) ≤ 3; decide
+        · show (1 : Int) ≤ 3; decide
+        · show (4 : Int) ≤ 4; decide
+        · trivial
+      have hnz : ∀ a ∈ nv2Atoms, a.NoZ := by
+        intro a ha
+        simp only [nv2Atoms, List.mem_cons, List.mem_nil_iff, or_false] at ha
+        rcases ha with rfl | rfl | rfl | rfl <;> first | trivial | rfl
+      have hi := linv_of_atoms ho 3 nv2Atoms hok hnz st h1
+      have hops : OpsOK st := C17_opsOK_of_allBound st hab hi.z (fun p hp' hd u hu => by
+        have := (List.all_eq_true.1 hkind) p hp'
+        rw [hd, Bool.false_or] at this
+        have := (List.all_eq_true.1 this) u hu
+        simpa [Bool.or_eq_true] using this)
+      have hall : ∀ y, (st.dget y).isSome → st'.σ y ≠ .var y := by
+        intro y hy
+        obtain ⟨q, hq, e⟩ := dget_isSome_iff.1 hy
+        have := (List.all_eq_true.1 hbound) q hq
+        rw [e] at this
+        simpa using this
+      obtain ⟨c1, _, c3⟩ := C16_labelled_answer_sound ho 3 nv2Atoms hok hnz [(3, 0)] st st' h1 hops h2 hall
+      exact ⟨st, st', rfl, h2, c1, c3 (by simpa using hempty)⟩
+    | fail => rw [h2] at hrest; cases hrest
+    | fuel => rw [h2] at hrest; cases hrest
+    | panic _ => rw [h2] at hrest; cases hrest
+  | fail => rw [h1] at hside; cases hside
+  | fuel => rw [h1] at hside; cases hside
+  | panic _ => rw [h1] at hside; cases hside
+end NonVacuity
 
 end Strict
 end Pv
